@@ -28,7 +28,10 @@ P_LIFE = BASE.with_(w_ops=dict(update=8, react=3, query=1, change=5, immChange=6
                     w_act=dict(change=6, changeWith=1, cancel=4, succeed=2, fail=1, plan_append=2, plan_clear=1))
 
 def cfgs_requests(tier, rng):
-    out = [cfgmod.make(n=3, head=1, manual=0, limit=3, cap=2, payload=0, plans=0, history=1, log="off", inj_state=1, inj_root=1)]
+    out = [cfgmod.make(n=3, head=1, manual=0, limit=3, cap=2, payload=0, plans=0, history=1, log="off", inj_state=1, inj_root=1),
+           # requests are also made "by a plan" and while task statuses are being reported: the same profile with plans compiled in
+           cfgmod.make(n=3, head=1, manual=0, limit=2, cap=2, payload=0, plans=1, history=1, log="off"),
+           cfgmod.make(n=4, head=1, manual=1, limit=3, cap=3, payload=2, plans=1, history=1, log="off")]
     for k in range(4 if tier == "quick" else 12):
         out.append(cfgmod.make(n=pick(rng, [2, 3, 4, 5]), head=k % 2, manual=(k // 2) % 2, limit=[1, 2, 4, 3][k % 4], cap=2,
                                payload=pick(rng, [0, 2]), plans=0, serial=0, history=1, log="off"))
@@ -214,7 +217,7 @@ def guard_cb(l): return l.kind == "cb" and l.meth in T.GUARD
 SPECS = {
     "C01": MachineSpec("C01", T.p_C01, P_LIFE, cfgs_lifecycle, lambda t: 60 if t == "quick" else 400,
                        lambda ls, c: sum(1 for l in ls if life_cb(l)) >= 4),
-    "C02": MachineSpec("C02", T.p_C02, P_REQ, cfgs_requests, lambda t: 100 if t == "quick" else 600,
+    "C02": MachineSpec("C02", T.p_C02, lambda c: P_REQ.with_(p_pair=0.7, n_tab=(0, 4)) if c["plans"] else P_REQ, cfgs_requests, lambda t: 100 if t == "quick" else 600,
                        lambda ls, c: has(ls, guard_cb) and has(ls, lambda l: l.kind == "did" and l.act[0].startswith("change"))),
     "C03": MachineSpec("C03", T.p_C03, P_REQ, cfgs_requests, lambda t: 100 if t == "quick" else 600,
                        lambda ls, c: has(ls, lambda l: l.kind == "did" and l.act[0] == "cancel" and l.res == "ok"), extra=guard_trees),
@@ -340,8 +343,16 @@ def check_C14(run):
                             lambda t, r: [cfgmod.make(n=n, head=h, manual=m, limit=L, history=1) for (n, h, m, L) in ((2, 1, 0, 2), (4, 0, 1, 3), (3, 1, 1, 1), (5, 0, 0, 4))],
                             lambda t: 40 if t == "quick" else 200, lambda ls, c: has(ls, guard_cb), monitor_ids=["C04"])
     engine.run_machine(run, spec_init)
+    # (c) a request for state k - from outside, from any callback of the root, of a state or of an injected base, alone or while another recipient of the
+    # same phase reports a task status or edits the plan - activates the k-th declared state and runs only its callbacks
+    spec_req = MachineSpec("C14", T.p_C14, P_CYCLE.with_(p_pair=0.6, n_tab=(0, 4), w_ops=dict(update=10, react=8, query=1, change=5, immChange=5, succeed=2, fail=1, plan_append=3)),
+                           lambda t, r: [cfgmod.make(n=3, head=1, plans=1, limit=2, cap=2), cfgmod.make(n=4, head=1, manual=1, plans=1, payload=2, limit=2, cap=3, history=1),
+                                         cfgmod.make(n=2, head=0, plans=1, limit=2, cap=2), cfgmod.make(n=5, head=1, inj_state=1, inj_root=1, plans=0, limit=2)],
+                           lambda t: 50 if t == "quick" else 300, lambda ls, c: has(ls, lambda l: l.kind == "did" and l.act[0].startswith("change") and l.res == "ok"), monitor_ids=[])
+    engine.run_machine(run, spec_req)
     run.violations.sort(key=lambda v: len(v.get("impl", "")))
-    return dict(rule="(b) activation-heavy generated scripts (entry guards that redirect and veto at activation): the machine must come up in the first declared state unless a redirect survived; "
+    return dict(rule="(c) requests made from outside and from every kind of callback, alone or together with task-status reports and plan edits by another recipient of the same phase, on machines with "
+                     "plans / payloads / injected bases: who receives callbacks and which state ends up active, compared with the model; (b) activation-heavy generated scripts (entry guards that redirect and veto at activation): the machine must come up in the first declared state unless a redirect survived; "
                      "(a) one machine per state count N (quick: 1..17, 31..33, 63..65 with and without head, both header variants, plus 127..129, 254, 255 once; thorough: every N in 1..255 "
                      "x head x variant); for every k < N: immediateChangeTo(k), update(), react(), query() - all twelve callback kinds; an evaluation is one (N, k) probe; distinct non-trivial = distinct (N, head, probe line)",
                 explanation="", exhaustive=(tier != "quick"))
